@@ -28,8 +28,8 @@ MCNext ==
        /\ ops < MaxOps
        /\ st' \in DoCall(st, w, op, IF op = "read" THEN 0 ELSE k, v, 0)
        /\ ops' = ops + 1
-  \/ \E w \in Writers : st' \in DoCommit([st EXCEPT !.now = Len(st.commits) + 1], w) /\ UNCHANGED ops
-  \/ \E w \in Writers, s \in Subs : st' \in DoSendBegin(st, w, s, MsgOf(w)) /\ UNCHANGED ops
+  \/ \E w \in Writers : st' \in DoCommit(Dev, [st EXCEPT !.now = Len(st.commits) + 1], w) /\ UNCHANGED ops
+  \/ \E w \in Writers, s \in Subs : st' \in DoSendBegin(Dev, st, w, s, MsgOf(w)) /\ UNCHANGED ops
   \/ \E w \in Writers, s \in Subs : st' \in DoSendEnd(st, w, s) /\ UNCHANGED ops
   \/ \E w \in Writers :
        st' \in DoRet(st, w, StatusOf(st.pend[w].op, st.pend[w].kind), Big * Big) /\ UNCHANGED ops
